@@ -823,6 +823,24 @@ func ruleC12_2(c *Ctx) {
 		}
 	}
 	c.check(okOmit && okMissing, R, fname(g), "a missing member fails unless it is omitempty", g.Pos(), "lookup !ok && !omitempty => error", "a missing required member is not an error (or omitempty is not what exempts)")
+	// ... and only absence fails: the writers emit null for nil slices / maps of non-omitempty members, so a present
+	// member must never be refused because of its value
+	for _, r := range returnsOf(g) {
+		if c.mayBeNilErr(r.Results[0], r.Block(), 0) {
+			continue
+		}
+		onlyAbsent := false
+		for _, b := range g.Blocks {
+			for _, in := range b.Instrs {
+				if lk, ok := in.(*ssa.Lookup); ok && lk.CommaOk && lk.X == ssa.Value(g.Params[0]) {
+					if okv := extractOf(lk, 1); okv != nil && c.condAt(okv, false, r.Block()) {
+						onlyAbsent = true
+					}
+				}
+			}
+		}
+		c.check(onlyAbsent, R, fname(g), "a member is refused only when its key is absent", instrPos(r), "failing return dominated by lookup ok == false", "a member that is present (e.g. with value null, which Dump / SetPayload write for nil slices and maps) can be refused as missing: library-written files no longer load back")
+	}
 }
 
 // stringCasesIface: like stringCases but for comparisons of interface values with boxed string constants.
